@@ -13,7 +13,7 @@ while i < len(a):
 dirs = sorted(glob.glob(os.path.join(V, "seeded", "C*-*")))
 if names:
     dirs = [d for d in dirs if os.path.basename(d) in names]
-ALSO = {"C18-2": ["C16", "C17"], "C26-2": ["C27"]}
+ALSO = {"C18-2": ["C16", "C17"], "C26-2": ["C27"], "C07-5": ["C22"], "C18-3": ["C07"]}
 def one(d):
     name = os.path.basename(d)
     pid = name.split("-")[0]
